@@ -487,8 +487,8 @@ def elementwise_views(ctx, defn):
                 continue
             calls.append((rx(tm2), rx_guard(strip(b.guard(b2)))))
         if calls or yields:
-            views.append({"kind": "loop", "source": render(strip_iter(nt[2][0])), "calls": calls, "yields": yields, "pushes": pushes,
-                          "site": t["sp"]})
+            views.append({"kind": "loop", "source": render(strip_iter(nt[2][0])), "source_term": strip_iter(nt[2][0]), "calls": calls,
+                          "yields": yields, "pushes": pushes, "site": t["sp"]})
     return views
 
 
